@@ -440,6 +440,7 @@ class StreamSequence:
             self.replace(stream, missing_stream)
         else:
             stream = streams.pop(index)
+            self._undock(stream)
         return stream
 
     def remove(self, stream):
